@@ -2,21 +2,32 @@
    form_insert, form_insert_tet, enlarge_face / enlarge_seg / enlarge_visible / enlarge_conforming / enlarge_combined,
    the static ref_cavity_manifold and ref_cavity_add_tet_without_faceid, ref_cavity_visible, ratio / change / normdev,
    ref_swap_node23) on grids built in-process, and (mode `run`) hooked real ref_cavity_pass / ref_collapse_pass /
-   ref_adapt_pass runs with one record per `cavity_replace` begin / accept.
+   ref_adapt_pass / ref_split_pass runs with one record per `cavity_replace` begin / accept.
 
    White-box: ref_cavity.c is included (the object ref_cavity.o is left out of the link) with three renames that do not
    change what the code computes:
-     ref_list_contains -> h_list_contains   counts the calls made from ref_cavity.c; with a budget set, the harness
-                                            leaves a `while (keep_growing)` loop that would never end by longjmp and
-                                            prints `hang` (no memory is held at that point of the enlarge loops)
+     ref_list_contains -> h_list_contains   counts the calls made from ref_cavity.c; under a budget (300000 calls per
+                                            enlarge_* op, about 400 times the largest count seen on generated grids) the
+                                            harness leaves a `while (keep_growing)` loop that would never end by longjmp
+                                            and prints `hang` (no memory is held at that point of the enlarge loops); in
+                                            run mode (3000000 calls per pass) it prints `hang inside a pass` and exits 7
      ref_cavity_create / ref_cavity_free -> real_*; the public names are wrappers that call the real ones and, in run
                                             mode, record the structural hash of the current grid at create and at free
                                             (the callers in ref_collapse.c / ref_split.c are separate translation units
                                             and reach the wrappers; ref_cavity.c itself calls the real ones)
+   Function level: the op vocabulary of h_cavity.c plus
+     note w | metric v m0..m5 l0..l5 | limits pmin pmax | form_swap a b n | form_ball n | form_insert n site protect id |
+     form_insert_tet n site protect | add_tet_wo c id | enlarge_face i | enlarge_seg i | visible_face i | manifold |
+     enlarge_visible | enlarge_conforming | enlarge_combined | ratio | change | normdev | ledger | node23 a b
+   `ledger` prints `ok L C S`: three evaluations written here without any refine function: L the conformity ledger (live
+   faces + listed tris against cone of the unattached live segs + faces of the listed tets, signed multiplicity 0 per
+   unordered face), C = listed cells live && live faces non-degenerate && L (Cavity2.certOk), S = every live seg carries the
+   face id of a listed tri (Cavity2.segIdsOk).
    One output line per op on `out`; the library's own printf diagnostics go to /dev/null.  The harness works in a
-   scratch directory under its start directory: without CAD ref_cavity_conforming fails inside ref_geom_tri_centroid,
-   whose error handler writes ref_geom_tri_centroid_error.tec on every call, and ref_swap_node23 exports
-   ref_swap_node23.tec on its error paths. */
+   scratch directory under its start directory: without CAD ref_cavity_conforming answers "not conforming" for every seg
+   because ref_geom_tri_norm_deviation fails inside ref_geom_tri_centroid, whose error handler writes
+   ref_geom_tri_centroid_error.tec on every call, and ref_swap_node23 exports ref_swap_node23.tec on its error paths. */
+#include <dirent.h>
 #include <setjmp.h>
 #include <sys/stat.h>
 #include <sys/types.h>
@@ -133,16 +144,6 @@ static int cav_nodes_ok(void) {
   if (REF_EMPTY != ref_cavity_surf_node(ref_cavity) && !node_ok(ref_cavity_surf_node(ref_cavity))) return 0;
   each_ref_cavity_valid_face(ref_cavity, i) for (k = 0; k < 3; k++) if (!node_ok(ref_cavity_f2n(ref_cavity, k, i))) return 0;
   each_ref_cavity_valid_seg(ref_cavity, i) for (k = 0; k < 2; k++) if (!node_ok(ref_cavity_s2n(ref_cavity, k, i))) return 0;
-  return 1;
-}
-
-/* every listed tet is a live cell (their nodes are valid: cells are created from valid nodes and a node is only
-   removed when no tet / tri uses it) */
-static int cav_tets_ok(void) {
-  REF_INT item;
-  each_ref_list_item(ref_cavity_tet_list(ref_cavity), item) {
-    if (!ref_cell_valid(ref_grid_tet(ref_grid), ref_list_value(ref_cavity_tet_list(ref_cavity), item))) return 0;
-  }
   return 1;
 }
 
@@ -897,10 +898,14 @@ int main(int argc, char **argv) {
     }
   }
   fflush(out);
-  (void)cav_tets_ok;
-  if (scratch[0]) {
-    remove("ref_geom_tri_centroid_error.tec");
-    remove("ref_swap_node23.tec");
+  if (scratch[0]) { /* the .tec files of the library's error handlers */
+    DIR *d = opendir(".");
+    struct dirent *e;
+    if (d) {
+      while (NULL != (e = readdir(d)))
+        if ('.' != e->d_name[0]) remove(e->d_name);
+      closedir(d);
+    }
     if (0 == chdir("..")) rmdir(scratch);
   }
   return 0;
